@@ -669,7 +669,32 @@ impl<'a, 'b> RtGen<'a, 'b> {
             }
             7 => {
                 // NonNullable
-                let inner = self.ty(depth + 1);
+                let inner = if self.c.chance(1, 2) {
+                    // a union whose null is not the last member, with Boolean and String both
+                    // present (their declaration order is part of the statement)
+                    self.label("NonNullable-over-nullable-boolean-string-union");
+                    let mut members: Vec<(&str, &[&str])> =
+                        vec![("null", &["null"]), ("boolean", &["Boolean"]), ("string", &["String"])];
+                    if self.c.bool() {
+                        members.push(("number", &["Number"]));
+                    }
+                    // random permutation (Fisher-Yates over the choice sequence)
+                    for i in (1..members.len()).rev() {
+                        let j = self.c.pick(i + 1);
+                        members.swap(i, j);
+                    }
+                    let parts: Vec<RtType> = members.iter().map(|(t, cs)| Self::mk(*t, cs, 0)).collect();
+                    let refs: Vec<&RtType> = parts.iter().collect();
+                    RtType {
+                        text: parts.iter().map(|p| p.text.clone()).collect::<Vec<_>>().join(" | "),
+                        ctors: union_ctors(&refs),
+                        loose: None,
+                        inhabitants: parts.iter().flat_map(|p| p.inhabitants.clone()).collect(),
+                        depth: 1,
+                    }
+                } else {
+                    self.ty(depth + 1)
+                };
                 self.label("NonNullable");
                 let ctors = inner.ctors.clone().map(|cs| cs.into_iter().filter(|c| c != "null").collect::<Vec<_>>());
                 let inhabitants: Vec<_> = inner
